@@ -39,6 +39,31 @@ fn decode_then_encode<T: serde::de::DeserializeOwned + serde::Serialize>(b: &[u8
 }
 
 pub fn run(ctx: &mut Ctx) {
+    // (S3) authentic, correctly encrypted responses whose MSO carries a device key the reader cannot use as a P-256
+    // point: other curves with THEIR coordinate sizes, wrong lengths, compressed form, OKP
+    {
+        use isomdl::definitions::device_key::cose_key::{EC2Curve, EC2Y, OKPCurve};
+        let mut keys = rauth::weird_device_keys();
+        for (crv, n) in [(EC2Curve::P256, 48usize), (EC2Curve::P384, 32), (EC2Curve::P384, 66), (EC2Curve::P521, 48), (EC2Curve::P256K, 32), (EC2Curve::P256K, 33)] {
+            keys.push(("curve-by-length", CoseKey::EC2 { crv: crv.clone(), x: vec![3; n], y: EC2Y::Value(vec![4; n]) }));
+            keys.push(("curve-by-length-signbit", CoseKey::EC2 { crv, x: vec![3; n], y: EC2Y::SignBit(false) }));
+        }
+        keys.push(("x448", CoseKey::OKP { crv: OKPCurve::X448, x: vec![9; 56] }));
+        for (name, key) in keys {
+            let mut rng: StdRng = ctx.rng.clone();
+            let kc = format!("{key:?}");
+            match rauth::scene_with_key(&mut rng, Some(key)) {
+                Some(sc) => {
+                    let mut rdr = sc.rdr.clone();
+                    let rk = rdr_view(&rdr);
+                    let msg = session_data(Some(&aes_encrypt(&rk.sk_device, &iso_iv(true, rk.device_ctr as u32 + 1), &to_bytes(&sc.plaintext))), None);
+                    attempt(ctx, &format!("handle_response(mso device key {name})"), hex::encode(kc.as_bytes()), move || { let o = rdr.handle_response(&msg); if o.errors.is_empty() { "handled" } else { "errors" } });
+                }
+                None => ctx.count("mso-device-key:no-response"),
+            }
+            ctx.rng = rng;
+        }
+    }
     let per_scene = ctx.budget(2400, 60000);
     let scenes = ctx.budget(3, 40);
     for _ in 0..scenes {
